@@ -44,6 +44,7 @@ impl C06 {
     ) -> bool {
         ctx.item_bytes(label, f);
         ctx.count("evaluations");
+        ctx.phase("nonverdict: expansion (totality is C01's verdict)");
         let exp = match cur::expand(f) {
             Out::Ok(v) => v,
             _ => {
@@ -134,6 +135,7 @@ fn draw_stream(r: &mut Rng, max_plain: usize, ctx: &mut Ctx) -> Option<Stream> {
             continue;
         }
         // premise: accepted on its own with verify=true, and the plaintext is what we think it is
+        ctx.phase("nonverdict: premise check (analysis of the stream alone)");
         match cur::analyze(&s.bytes, true) {
             Out::Ok(a) if a.plain == s.plain && a.size == s.bytes.len() => return Some(s),
             _ => {
